@@ -151,6 +151,23 @@ fn parse_ops(t: &mut Toks) -> Result<Vec<Op>, String> {
     Ok(ops)
 }
 
+thread_local! {
+    /// set per history case: after every builder call, query the builder (calculate_size, get_padding, a
+    /// write into a scratch buffer) - pure calls that must not change what is written later
+    static QUERY: std::cell::Cell<bool> = const { std::cell::Cell::new(false) };
+}
+fn probe<W: RtcpPacketWriter>(b: &W) {
+    if QUERY.with(|q| q.get()) {
+        let _ = guard(|| {
+            let _ = b.get_padding();
+            if let Ok(n) = b.calculate_size() {
+                let mut scratch = vec![0x5au8; n];
+                let _ = b.write_into(&mut scratch);
+            }
+        });
+    }
+}
+
 /// run the finished builder through the chosen wrapper and observe size and bytes
 fn finish<'a, B>(wrap: &str, b: B, into_pb: impl FnOnce(B) -> PacketBuilder<'a>) -> Result<Kvs, String>
 where
@@ -206,12 +223,24 @@ fn item_from_hist(h: &ItemHist) -> SdesItemBuilder<'_> {
             ItemOp::Prefix(p) => b.prefix(p.as_slice()),
             ItemOp::IntoOwned => b.into_owned(),
         };
+        if QUERY.with(|q| q.get()) {
+            // item builders are not packet writers: query through the item-level write_into
+            let _ = guard(|| {
+                let mut scratch = [0x5au8; 600];
+                let _ = b.write_into(&mut scratch);
+            });
+        }
     }
     b
 }
 
 pub fn run_hist(t: &mut Toks) -> Result<Kvs, String> {
-    let wrap = t.next()?;
+    let wrap_tok = t.next()?;
+    let (wrap, query) = match wrap_tok.strip_suffix('q') {
+        Some(w) => (w, true),
+        None => (wrap_tok, false),
+    };
+    QUERY.with(|q| q.set(query));
     let init = match t.next()? {
         "sr" => Init::Sr(t.num()?),
         "rr" => Init::Rr(t.num()?),
@@ -249,6 +278,7 @@ pub fn run_hist(t: &mut Toks) -> Result<Kvs, String> {
                     Op::Rb(rb) => b.add_report_block(rb.builder()),
                     _ => b,
                 };
+                probe(&b);
             }
             finish(wrap, b, PacketBuilder::from)
         }
@@ -260,6 +290,7 @@ pub fn run_hist(t: &mut Toks) -> Result<Kvs, String> {
                     Op::Rb(rb) => b.add_report_block(rb.builder()),
                     _ => b,
                 };
+                probe(&b);
             }
             finish(wrap, b, PacketBuilder::from)
         }
@@ -272,6 +303,7 @@ pub fn run_hist(t: &mut Toks) -> Result<Kvs, String> {
                     Op::Data(d) => b.data(d.as_slice()),
                     _ => b,
                 };
+                probe(&b);
             }
             finish(wrap, b, PacketBuilder::from)
         }
@@ -285,6 +317,7 @@ pub fn run_hist(t: &mut Toks) -> Result<Kvs, String> {
                     Op::ReasonOwned(r) => b.reason_owned(r.as_str()),
                     _ => b,
                 };
+                probe(&b);
             }
             finish(wrap, b, PacketBuilder::from)
         }
@@ -301,11 +334,13 @@ pub fn run_hist(t: &mut Toks) -> Result<Kvs, String> {
                             } else {
                                 c.add_item(item_from_hist(it))
                             };
+                            probe(&b);
                         }
                         b.add_chunk(c)
                     }
                     _ => b,
                 };
+                probe(&b);
             }
             finish(wrap, b, PacketBuilder::from)
         }
@@ -317,6 +352,7 @@ pub fn run_hist(t: &mut Toks) -> Result<Kvs, String> {
                     Op::Count(v) => b.count(*v),
                     _ => b,
                 };
+                probe(&b);
             }
             finish(wrap, b, PacketBuilder::from)
         }
@@ -342,6 +378,7 @@ pub fn run_hist(t: &mut Toks) -> Result<Kvs, String> {
                                 Op::Media(v) => b.media_ssrc(*v),
                                 _ => b,
                             };
+                            probe(&b);
                         }
                         finish(wrap, b, PacketBuilder::from)
                     } else {
@@ -357,6 +394,7 @@ pub fn run_hist(t: &mut Toks) -> Result<Kvs, String> {
                                 Op::Media(v) => b.media_ssrc(*v),
                                 _ => b,
                             };
+                            probe(&b);
                         }
                         finish(wrap, b, PacketBuilder::from)
                     }
@@ -364,15 +402,36 @@ pub fn run_hist(t: &mut Toks) -> Result<Kvs, String> {
             }
             match fci {
                 FciHist::Nack(v) => {
-                    nack = crate::nack_builder(v);
+                    nack = {
+                        let mut b = Nack::builder();
+                        for s in v.iter() {
+                            b = b.add_rtp_sequence(*s);
+                            probe(&b);
+                        }
+                        b
+                    };
                     fb_run!(nack, NackBuilder)
                 }
                 FciHist::Fir(v) => {
-                    fir = crate::fir_builder(v);
+                    fir = {
+                        let mut b = Fir::builder();
+                        for (s, q) in v.iter() {
+                            b = b.add_ssrc(*s, *q);
+                            probe(&b);
+                        }
+                        b
+                    };
                     fb_run!(fir, FirBuilder)
                 }
                 FciHist::Sli(v) => {
-                    sli = crate::sli_builder(v);
+                    sli = {
+                        let mut b = Sli::builder();
+                        for (a, c, p) in v.iter() {
+                            b = b.add_lost_macroblock(*a, *c, *p);
+                            probe(&b);
+                        }
+                        b
+                    };
                     fb_run!(sli, SliBuilder)
                 }
                 FciHist::Pli => {
@@ -390,6 +449,7 @@ pub fn run_hist(t: &mut Toks) -> Result<Kvs, String> {
                             RpsiOp::Data(d, ov) => b.native_data(d.clone(), *ov),
                             RpsiOp::DataOwned(d, ov) => b.native_data_owned(d.as_slice(), *ov),
                         };
+                        probe(&b);
                     }
                     rpsi = b;
                     fb_run!(rpsi, RpsiBuilder)
@@ -408,6 +468,7 @@ fn fb_borrowed_t<'a, F: FciBuilder<'a>>(wrap: &str, fci: &'a F, ops: &[Op]) -> R
             Op::Media(v) => b.media_ssrc(*v),
             _ => b,
         };
+        probe(&b);
     }
     finish(wrap, b, PacketBuilder::from)
 }
@@ -420,6 +481,7 @@ fn fb_borrowed_p<'a, F: FciBuilder<'a>>(wrap: &str, fci: &'a F, ops: &[Op]) -> R
             Op::Media(v) => b.media_ssrc(*v),
             _ => b,
         };
+        probe(&b);
     }
     finish(wrap, b, PacketBuilder::from)
 }
